@@ -459,13 +459,31 @@ def check_copy_family(run, case):
     """engines derived from one base engine with copy(options) / called
     with per-call options finalise according to *their* options"""
     text = case['text']
-    base = common.engine({'yaql.limitIterators': 1000}, cache=False) \
-        if case.get('fresh_base') else _family_base()
-    run.case(case, True, fp=(text, tuple(map(tuple, case['order']))),
-             cls='copy-family')
+    base_opts = case.get('base_opts')
+    if base_opts:
+        # the base engine has explicit values of its own for the options
+        # the derived engines override
+        base = common.engine({'yaql.limitIterators': 1000,
+                              'yaql.convertTuplesToLists': base_opts[0],
+                              'yaql.convertSetsToLists': base_opts[1]},
+                             cache=False)
+    else:
+        base = common.engine({'yaql.limitIterators': 1000}, cache=False) \
+            if case.get('fresh_base') else _family_base()
+    inherited = base_opts or [True, False]
+    run.case(case, True, fp=(text, tuple(map(tuple, case['order'])),
+                             tuple(base_opts or ()), case.get('sparse')),
+             cls=['copy-family'] + (['base-with-explicit-options']
+                                    if base_opts else []))
     for t2l, s2l in case['order']:
         opts = {'yaql.convertTuplesToLists': t2l,
                 'yaql.convertSetsToLists': s2l}
+        if case.get('sparse'):
+            # only what differs from the base engine is passed
+            if t2l == inherited[0]:
+                del opts['yaql.convertTuplesToLists']
+            if s2l == inherited[1]:
+                del opts['yaql.convertSetsToLists']
         ctx1 = common.child()
         ctx2 = common.child()
         for k, v in _data().items():
@@ -505,13 +523,25 @@ def check_host_setup(run, case):
     opts = {'yaql.limitIterators': 1000}
     engines = []
     for t2l, s2l in case['order']:
-        opts['yaql.convertTuplesToLists'] = t2l
-        opts['yaql.convertSetsToLists'] = s2l
+        if case.get('sparse'):
+            # a new dict per engine that names only what differs from the
+            # documented defaults (tuples -> lists on, sets -> lists off)
+            opts = {'yaql.limitIterators': 1000}
+            if not t2l:
+                opts['yaql.convertTuplesToLists'] = False
+            if s2l:
+                opts['yaql.convertSetsToLists'] = True
+        else:
+            opts['yaql.convertTuplesToLists'] = t2l
+            opts['yaql.convertSetsToLists'] = s2l
         engines.append(((t2l, s2l), factory.create(options=opts)))
     if case.get('clear'):
         opts.clear()
     run.case(case, True, fp=(text, tuple(map(tuple, case['order'])),
-                             bool(case.get('clear'))), cls='host-setup')
+                             bool(case.get('clear')),
+                             bool(case.get('sparse'))),
+             cls=['host-setup'] + (['sparse-options']
+                                   if case.get('sparse') else []))
     for (t2l, s2l), eng in engines:
         ctx1, ctx2 = common.child(), common.child()
         for c in (ctx1, ctx2):
@@ -674,7 +704,10 @@ def copy_cases(draw):
     return {'kind': 'copy-family', 'text': e,
             'order': [list(o) for o in draw(st.permutations(OPTS))],
             'per_call': draw(st.booleans()),
-            'fresh_base': draw(st.booleans())}
+            'fresh_base': draw(st.booleans()),
+            'base_opts': draw(st.sampled_from([None] + [list(o)
+                                                        for o in OPTS])),
+            'sparse': draw(st.booleans())}
 
 
 @st.composite
@@ -694,7 +727,7 @@ def setup_cases(draw):
         ['[$d, $s]', '[1, [2, 3]]', '$', '[1, 2].toSet()', '{a => [1]}'])),
         'order': [list(o) for o in draw(st.permutations(OPTS))][
             :draw(st.integers(2, 3))],
-        'clear': draw(st.booleans())}
+        'clear': draw(st.booleans()), 'sparse': draw(st.booleans())}
 
 
 def _shard(run, which, n, shard):
